@@ -231,13 +231,13 @@ def needsLexer : SVal → Bool
   | .d _ => false
 
 /-- verdict of `validate_pyxform_reference_syntax` on one cell (`Pyxv.Lexer.refSyntaxOk`, the token
-    loop of pyxform_reference.py).  `none`: outside the fragment — the lexer table is not the pinned
-    one, or the cell contains the empty reference `${}` (its treatment is C03's subject).
+    loop of pyxform_reference.py, including the `name_seen` rule for the empty reference `${}`).
+    `none`: outside the fragment — the lexer table is not the pinned one.
     Values of `attribute::x` groups are dicts for `clean_text_values` and are never checked. -/
 def refVerdict : SVal → Option Bool
   | .s v =>
     if needsLexer (.s v) then
-      (if isInfix (S "${}") v then none else Pyxv.Lexer.refSyntaxOk v)
+      Pyxv.Lexer.refSyntaxOk v
     else some true
   | .d _ => some true
 
@@ -482,6 +482,11 @@ def xmlNameOk (declared : List Str) (k : Str) : Bool :=
    | some p => p == S "xml" || p == S "xmlns" || declared.contains p
    | none => true)
 
+/-- `_validate_xml_name(..., kind="element")`: additionally the prefix `xmlns` is reserved for
+    declarations -/
+def xmlElemNameOk (declared : List Str) (k : Str) : Bool :=
+  xmlNameOk declared k && prefixOf k != some (S "xmlns")
+
 /-- `XML_RESERVED_NAMESPACES` (regenerated; empty on a tree without the reserved-names check) -/
 def reservedNs (v : Str) : Bool := Pyxv.Gen.xmlReservedNamespaces.any fun r => r.toList == v
 
@@ -498,21 +503,19 @@ def attrsOk (declared : List Str) (attrs : List (Str × Str)) : Bool :=
     kept valid by the generator) -/
 def Header.xmlOk (h : Header) : Bool :=
   let d := declaredBy h.nsmap
+  -- the root's own `xmlns:p` attributes (`attribute::xmlns:p`) are in scope for its name and attributes
+  let dr := d ++ declaredBy h.rootAttrs
   h.nsmap.all nsDeclOk && attrsOk d h.nsmap && xmlText h.title &&
-  xmlNameOk d h.rootName && attrsOk d h.rootAttrs && h.rootAttrs.all nsDeclOk &&
+  xmlElemNameOk dr h.rootName && attrsOk dr h.rootAttrs && h.rootAttrs.all nsDeclOk &&
   (match h.submission with | some l => attrsOk d l | none => true) &&
   (match h.bodyClass with | some c => xmlText c | none => true) &&
   (match h.instanceName with | some c => xmlText c | none => true)
 
-/-- `${…}` inside `instance_name` is substituted by `insert_xpaths` (C03's subject), and an
-    `xmlns:p` among the root attributes changes the prefixes in scope: both outside the fragment -/
-def headerTricky (st : Dict) (h : Header) : Bool :=
-  (match aget (S "instance_name") st with
-   | some (.s v) => isInfix (S "${") v
-   | _ => false) ||
-  (h.rootAttrs.any fun kv => startsWith kv.1 (S "xmlns:")) ||
-  -- an element name with the prefix `xmlns` is rejected only by trees that have the reserved-names check
-  prefixOf h.rootName == some (S "xmlns")
+/-- `${…}` inside `instance_name` is substituted by `insert_xpaths` (C03's subject): outside the fragment -/
+def headerTricky (st : Dict) (_h : Header) : Bool :=
+  match aget (S "instance_name") st with
+  | some (.s v) => isInfix (S "${") v
+  | _ => false
 
 /-- cleaned settings dict + arguments ↦ header (or the error the code raises) -/
 def header (st : Dict) (a : Args) : M Header :=
@@ -521,7 +524,7 @@ def header (st : Dict) (a : Args) : M Header :=
   if !Pyxv.Rows.isXmlTag (surveyOf (jsonRoot st a)).name then
     .error (.err (.badName (surveyOf (jsonRoot st a)).name)) else
   if nsTricky (surveyOf (jsonRoot st a)) || headerTricky st (headerOf st a) then
-    .error (.unsupported "namespace prefix `xmlns` / with a colon, xmlns: root attribute, or ${} in instance_name") else
+    .error (.unsupported "namespace prefix `xmlns` / with a colon in `namespaces`, or ${ in instance_name") else
   if !(headerOf st a).xmlOk then .error (.err .xmlInvalid) else
   .ok (headerOf st a)
 
